@@ -236,6 +236,9 @@ func c02Gen(r *Rng, n int) []string {
 		if o.AttrPrefix == o.KeyPrefix {
 			o.KeyPrefix = "#"
 		}
+		if hasNamePrefix(root, o.AttrPrefix) || (o.Lower && hasNamePrefix(root, strings.ToUpper(o.AttrPrefix))) {
+			o.AttrPrefix = "-" // element names that begin with the attribute prefix are outside the domain
+		}
 		o.SkipSet, o.Skip = false, nil
 		escEnc := !o.EscDec
 		goEmpty := r.P(20)
